@@ -14,8 +14,7 @@ var TypeDumper = func(e *yang.Entry) string {
 	if e.Type == nil {
 		return "-"
 	}
-	n := e.Type.Name
-	return HexS(n)
+	return HexS(DumpYangType(e.Type))
 }
 
 func tri(t yang.TriState) string {
@@ -94,6 +93,11 @@ func CanonErrs(errs []error) []string {
 	for _, e := range errs {
 		// a wrapped list of errors ("deviation has unresolvable type, [..]") is one error
 		f, l, c, cls := ErrClass(e.Error())
+		if strings.Contains(e.Error(), "cyclic type reference") {
+			// which statement of a cyclic type definition is reported depends on where the cycle
+			// is entered first (memoisation): compared without position
+			f, l, c, cls = "-", 0, 0, "type-cycle"
+		}
 		kk := k{f, l, c, cls}
 		if !seen[kk] {
 			seen[kk] = true
